@@ -138,6 +138,7 @@ class Config:
         self.str_param_names: set = set()
         self.treat_escape_primitive = True
         self.loop_effects = True      # run loop bodies once generically to record their effects
+        self.coarse_counts = False    # len(x) comparisons are plain two-way decisions (effect analyses)
         self.opaque_all = False       # modular mode: every module-level function / method call is opaque
         self.inline: set = set()      # exceptions to opaque_all
         self.return_origin: Dict[str, Any] = {}   # qualname -> ownership of an opaque call's result
